@@ -166,6 +166,8 @@ class Mean(Accumulator):
 
     def _accumulate_other(self, other):
         ntot = self.n + other.n
+        if ntot == 0:
+            return
         self._val = self._val * (self.n / ntot) + other._val * (other.n / ntot)
         self._n += other._n
 
@@ -240,6 +242,8 @@ class Variance(Accumulator):
         # https://en.wikipedia.org/wiki/Algorithms_for_calculating_variance#Parallel_algorithm
         dmean = self.mean.value - other.mean.value
         newn = self.n + other.n
+        if newn == 0:
+            return
         newvar = self.var.sum + other.var.sum + dmean ** 2 * self.n * other.n / newn
         self.mean += other.mean
         self.var = Mean(value=newvar / newn, n=newn)
@@ -306,6 +310,8 @@ class Covariance(Accumulator):
         # https://en.wikipedia.org/wiki/Algorithms_for_calculating_variance#Parallel_algorithm
         dmean = self.mean.value - other.mean.value
         newn = self.n + other.n
+        if newn == 0:
+            return
         newvar = self._cov.sum + other._cov.sum + np.outer(dmean, dmean) * self.n * other.n / newn
         self.mean += other.mean
         self._cov = Mean(value=newvar / newn, n=newn)
